@@ -1019,3 +1019,44 @@ def retargeted_relation_not_resolved(case, outcome, atoms):
         return atoms
     return [a for a in atoms if not (a[0] in ('closure_residual', 'closure_residual_reverse') and
                                      'related_model' in a[1])]
+
+
+# ---------------------------------------------------------------------------
+# C06
+# ---------------------------------------------------------------------------
+
+def _q_has_tuple(v):
+    if isinstance(v, dict):
+        if v.get('t') == 'q':
+            return _any_tuple(v)
+        return any(_q_has_tuple(x) for x in v.values())
+    if isinstance(v, (list, tuple)):
+        return any(_q_has_tuple(x) for x in v)
+    return False
+
+
+def _any_tuple(v):
+    if isinstance(v, dict):
+        if v.get('t') == 'tuple':
+            return True
+        return any(_any_tuple(x) for x in v.values())
+    if isinstance(v, (list, tuple)):
+        return any(_any_tuple(x) for x in v)
+    return False
+
+
+@explainer
+def tuples_inside_q_values_become_lists(case, outcome, atoms):
+    """The stored JSON cannot represent tuples: a tuple used as a value inside a
+    Q object (Q(a__in=(1, 2))) or as an expression argument is read back as a
+    list, and Q.__eq__ / deconstruct() distinguish the two, so the read-back
+    index condition / check constraint is unequal to the original and the
+    'indexes' / 'constraints' diff is non-empty."""
+    if not _q_has_tuple(case.get('extras') or []):
+        return atoms
+    out = []
+    for a in atoms:
+        if a[0] in ('rt_unequal', 'rt_diff_nonempty') and a[1] in ('json', 'version'):
+            continue
+        out.append(a)
+    return out
